@@ -50,6 +50,17 @@ theorem ymd_overflow_value (y m d : Int) (hy : 32 ≤ y) (y' m' : Nat)
   congr 1
   unfold mkDate ofOrd DAYUS; omega
 
+/-- the same for the entry point `dt(y, m, d)` itself (`dtYmd y m d 0 0 0`) -/
+theorem dt_ymd_overflow (y m d : Int) (hy : 32 ≤ y) (y' m' : Nat)
+    (hym : Gen.ym y m = ((y' : Int), (m' : Int))) (hy' : 1 ≤ y' ∧ y' ≤ 9999) :
+    dtYmd y m d 0 0 0 = checkRange (mkDate y' m' 1 + (d - 1) * DAYUS) := by
+  unfold dtYmd
+  rw [ymd_overflow_value y m d hy y' m' hym hy']
+  unfold checkRange
+  split
+  · next h => simp only [Except.bind, Int.zero_mul, Int.add_zero]; rw [if_pos h]
+  · rfl
+
 example : ymdDate 2000 14 0 = .ok (mkDate 2001 1 31) ∧ Gen.ym 2000 14 = (2001, 2) := ⟨ok_of_okVal (by decide +kernel), by decide⟩
 
 /-- `dt(y, m, d, h, mi, s)` of a calendar date is that date plus the time of day -/
